@@ -820,6 +820,205 @@ def run_cc(case, tmp, want_model=False):
     return res
 
 
+def blob_pickle(val):
+    """a record ZODB.blob.is_blob_record recognises: the class pickled as a global, then a state"""
+    import ZODB.blob
+    f = io.BytesIO()
+    p = pickle.Pickler(f, 3)
+    p.dump(ZODB.blob.Blob)
+    p.dump(val)
+    return f.getvalue()
+
+
+def run_blob(case, tmp, want_model=False):
+    """FileStorage with a blob directory: a pack to T2 that FAILS at a packer phase (injected fault),
+    then a pack to T1 that succeeds.  A failed pack must leave everything as it was (records, blob
+    files), and must not influence what the later pack removes: every snapshot above T1 still
+    loads every object with the same data, serial, end tid and blob file contents, and a blob write
+    after T1 is still undoable."""
+    global Z
+    import errno
+    if Z is None:
+        Z = _zodb()
+    res = dict(bad=[], counts={}, lines=[], expect=[], nontrivial=False, sample=None, log=[])
+    counts = res['counts']
+    d = os.path.join(tmp, 'b%d' % os.getpid())
+    shutil.rmtree(d, ignore_errors=True)
+    os.makedirs(d)
+    p64, z64 = Z['p64'], Z['z64']
+    st = Z['FS'](os.path.join(d, 'Data.fs'), blob_dir=os.path.join(d, 'blobs'))
+    fspack = sys.modules['ZODB.FileStorage.fspack']
+    packer = fspack.FileStoragePacker
+    serial = {}
+    content = {}                                  # (oid, m) -> blob bytes
+
+    def commit(m, recs):
+        t = Z['TMD']('u', 'txn %d' % m)
+        st.tpc_begin(t, tid=real_tid(m))
+        for o, kind_, refs in recs:
+            if kind_ == 'blob':
+                fn = os.path.join(d, 'tmp-%d-%d.blob' % (m, o))
+                body = b'blob %d of txn %d' % (o, m)
+                with open(fn, 'wb') as f:
+                    f.write(body)
+                st.storeBlob(p64(o), serial.get(o, z64), blob_pickle(m * 100 + o), fn, '', t)
+                content[(o, m)] = body
+            else:
+                st.store(p64(o), serial.get(o, z64), mkpickle(m * 100 + o, refs), '', t)
+        st.tpc_vote(t)
+        st.tpc_finish(t)
+        for o, _, _ in recs:
+            serial[o] = real_tid(m)
+
+    def observe_blobs(bounds, oids):
+        out = {}
+        for o in oids:
+            for b in bounds:
+                try:
+                    r = st.loadBefore(p64(o), real_tid(b))
+                except Exception as e:
+                    out[(o, b)] = errkind(e)
+                    continue
+                if r is None:
+                    out[(o, b)] = None
+                    continue
+                blob = None
+                if st.is_blob_record(r[0]):
+                    try:
+                        with open(st.loadBlob(p64(o), r[1]), 'rb') as f:
+                            blob = f.read()
+                    except Exception as e:
+                        blob = 'blob file: ' + errkind(e)
+                out[(o, b)] = (dig(r[0]), model_time(r[1]), model_time(r[2]), blob)
+        return out
+    saved = {}
+    try:
+        for m, recs in case['hist']:
+            commit(m, recs)
+        ms = [m for m, _ in case['hist']]
+        bounds = sorted(set(ms + [max(ms) + 1]))
+        oids = sorted({o for _, recs in case['hist'] for o, _, _ in recs})
+        T1, gc1 = case['T1']
+        T2, gc2 = case['T2']
+        before = observe_blobs(bounds, oids)
+        lst0 = full_listing(listing(st))
+        # 1. the pack to T2 fails
+        fault = case['fault']
+        calls = dict(n=0)
+        if fault == 'copyRest':
+            saved['copyRest'] = packer.copyRest
+
+            def copyRest(self, ipos):
+                raise OSError(errno.ENOSPC, 'No space left on device (injected)')
+            packer.copyRest = copyRest
+        elif fault in ('copyOne2', 'runtime'):
+            saved['copyOne'] = packer.copyOne
+            orig = packer.copyOne
+
+            def copyOne(self, ipos):
+                calls['n'] += 1
+                if calls['n'] >= (2 if fault == 'copyOne2' else 1):
+                    if fault == 'runtime':
+                        raise RuntimeError('injected')
+                    raise OSError(errno.EIO, 'I/O error (injected)')
+                return orig(self, ipos)
+            packer.copyOne = copyOne
+        try:
+            st.pack(real_time(T2), Z['referencesf'], gc=bool(gc2))
+            out1 = 'done'
+        except BaseException as e:
+            if isinstance(e, (KeyboardInterrupt, SystemExit)):
+                raise
+            out1 = 'err:' + type(e).__name__
+        finally:
+            for k, v in saved.items():
+                setattr(packer, k, v)
+        counts['blobpack:first:%s:%s' % (fault, out1)] = 1
+        mid = observe_blobs(bounds, oids)
+        if out1.startswith('err:'):
+            if mid != before or full_listing(listing(st)) != lst0:
+                k = sorted(x for x in before if mid.get(x) != before[x])[:3]
+                res['bad'].append(('C07:failed-pack-changed-storage',
+                                   'pack(T=%d, gc=%d) with blobs failed (%s at %s) and changed the storage: %r'
+                                   % (T2, gc2, out1, fault, [(x, short(before[x]), short(mid.get(x))) for x in k])))
+        # 2. the pack to T1 succeeds
+        ref = mid if not out1.startswith('err:') else before
+        try:
+            st.pack(real_time(T1), Z['referencesf'], gc=bool(gc1))
+            out2 = 'done'
+        except BaseException as e:
+            if isinstance(e, (KeyboardInterrupt, SystemExit)):
+                raise
+            out2 = 'err:' + type(e).__name__
+        counts['blobpack:second:%s' % out2] = 1
+        after = observe_blobs(bounds, oids)
+        Tm = max(T1, T2) if not out1.startswith('err:') else T1
+        def reach(bd):                             # blobs reference nothing: root + what it references
+            cur = [refs for m, recs in case['hist'] if m < bd for o, _, refs in recs if o == ROOT]
+            return {ROOT} | set(cur[-1] if cur else [])
+        diff = sorted(x for x in ref if x[1] > Tm and x[0] in reach(x[1]) and after.get(x) != ref[x])
+        if diff:
+            x = diff[0]
+            res['bad'].append(('C07:pack-after-failed-pack-lost-blob' if out1.startswith('err:')
+                               else 'C07:blob-load-changed',
+                               'pack(T=%d, gc=%d) after a pack(T=%d) that %s: loadBefore(oid %d, b=%d) + blob file '
+                               'gives %r, was %r' % (T1, gc1, T2, 'failed at ' + str(fault) if out1.startswith('err:')
+                                                     else 'succeeded', x[0], x[1], short(after.get(x)), short(ref[x]))))
+        # a blob write after the pack time is still undoable (undo copies the previous revision's file)
+        for m, recs in reversed(case['hist']):
+            blobs = [o for o, k_, _ in recs if k_ == 'blob']
+            if m > Tm and blobs and all(serial[o] == real_tid(m) for o, _, _ in recs) and not diff:
+                prev = {o: max((mm for (oo, mm) in content if oo == o and mm < m), default=None) for o in blobs}
+                t = Z['TMD']('u', 'undo')
+                st.tpc_begin(t, tid=real_tid(max(ms) + 2))
+                try:
+                    st.undo(base64.encodebytes(real_tid(m)).rstrip(), t)
+                    st.tpc_vote(t)
+                    st.tpc_finish(t)
+                    for o in blobs:
+                        if prev[o] is None:
+                            continue
+                        data, s = st.load(p64(o), '')
+                        with open(st.loadBlob(p64(o), s), 'rb') as f:
+                            got = f.read()
+                        if got != content[(o, prev[o])]:
+                            res['bad'].append(('C07:undo-after-pack-differs', 'undo of blob write %d: blob reads %r' % (m, got)))
+                except Exception as e:
+                    st.tpc_abort(t)
+                    res['bad'].append(('C07:undo-after-pack-differs',
+                                       'undo of the blob write of transaction %d after the packs raised %s'
+                                       % (m, type(e).__name__)))
+                break
+        res['nontrivial'] = out1.startswith('err:') and out2 == 'done'
+        if res['bad']:
+            res['sample'] = dict(case)
+    finally:
+        for k, v in saved.items():
+            setattr(packer, k, v)
+        try:
+            st.close()
+        except Exception:
+            pass
+        shutil.rmtree(d, ignore_errors=True)
+    return res
+
+
+def gen_blob_case(rng):
+    R = lambda refs: [ROOT, 'obj', refs]
+    unlink = rng.random() < 0.4
+    hist = [[2, [R([1, 2]), [1, 'blob', []], [2, 'blob', []]]],
+            [4, [R([1, 2])]],
+            [6, [[1, 'blob', []]] + ([R([1])] if unlink else [])],
+            [8, [R([1] if unlink else [1, 2])]],
+            [10, [[2, 'blob', []]] if not unlink else [R([1])]],
+            [12, [R([1] if unlink else [1, 2])]]]
+    T1 = rng.choice([3, 5, 7, 9])
+    T2 = rng.choice([t for t in (5, 7, 9, 11) if t > T1])
+    return dict(blob=True, hist=hist, T1=[T1, rng.choice([0, 1])], T2=[T2, rng.choice([0, 1, 1])],
+                fault=rng.choice(['copyRest', 'copyRest', 'copyOne2', 'runtime', None]),
+                ops=[], kind='fsblob', seq=[[T2, 1], [T1, 1]])
+
+
 def undo_series(st, kind, path, first, T, gc, oids, truth, counts, serial):
     """undo the (up to 4) newest transactions after T, newest first, on the packed storage and on a
     fresh copy of the unpacked file; outcomes and resulting current states must agree"""
@@ -876,6 +1075,8 @@ def _worker(args):
     try:
         if case.get('cc'):
             return run_cc(case, tmp)
+        if case.get('blob'):
+            return run_blob(case, tmp)
         return run_case(case, tmp)
     except InfraError as e:
         return dict(infra=str(e))
@@ -909,6 +1110,10 @@ def compare_model(ck, case, res, mo):
     return None, nr
 
 
+def runner_of(case):
+    return run_cc if case.get('cc') else (run_blob if case.get('blob') else run_case)
+
+
 def load_corpus():
     d = os.path.join(VERIF, 'corpus', 'C07')
     out = []
@@ -925,7 +1130,7 @@ def shrink(case, sig, tmp):
     def fails(ops):
         c = dict(case, ops=ops)
         try:
-            r = (run_cc if c.get('cc') else run_case)(c, tmp, want_model=False)
+            r = runner_of(c)(c, tmp, want_model=False)
         except Exception:
             return False
         return any(s == sig for s, _ in r['bad'])
@@ -972,6 +1177,9 @@ def main(argv=None):
                            (['dbnow', ck.rng.choice([1, 2])] if y < 0.2 else None))
                     cases.append(dict(ops=ops, kind=kind, seq=seq, drop_index=ck.rng.random() < 0.5, tz=tz,
                                       via=via))
+            if i % 5 == 1:
+                # FileStorage with blobs: a pack that fails at a packer phase, then a pack that succeeds
+                cases.append(gen_blob_case(ck.rng))
             if i % 10 == 3 and ops:
                 # a commit arriving from another thread while a MappingStorage is being packed
                 ms = [op['m'] for op in ops]
@@ -1003,7 +1211,8 @@ def main(argv=None):
             ck.count(k, v)
         for m, o in r['log']:
             ck.count('op:' + ('committed' if o == 'ok' else 'refused:' + o))
-        ck.case([case['ops'], case['kind'], case['seq']], r['nontrivial'], sample=r['sample'])
+        ck.case([case['ops'], case['kind'], case['seq']] + ([case] if case.get('blob') else []),
+                r['nontrivial'], sample=r['sample'])
         mism, nr = compare_model(ck, case, r, out)
         if nr:
             ck.count('NoResurrection:' + {'strong=1 weak=1': 'holds',
@@ -1018,8 +1227,8 @@ def main(argv=None):
                 if (sig in reported and len(ck.violations) >= 3):
                     continue
                 reported.add(sig)
-                small = case if known else shrink(case, sig, ck.tmp)
-                rr = (run_cc if small.get('cc') else run_case)(small, ck.tmp, want_model=False)
+                small = case if (known or case.get('blob')) else shrink(case, sig, ck.tmp)
+                rr = runner_of(small)(small, ck.tmp, want_model=False)
                 what = [w for s, w in rr['bad'] if s == sig] or [w for s, w in r['bad'] if s == sig]
                 ck.violation(sig, what[0], dict(case=small, signature=sig, findings=[w for _, w in rr['bad']][:6]))
         elif mism:
